@@ -494,4 +494,30 @@ func c15SerializerReuse(w *W) {
 			}
 		}
 	}
+	// scratch buffers sized by a big stream, then small ones on the same Serializer
+	w.Note("Serializer reuse after a big stream: Serialize(70000 tags); Deserialize; Serialize(tiny); Deserialize; Serialize(s); Deserialize for every small tape s, modes none and default")
+	bigIdx := -1
+	for i, t := range ts {
+		if t.big && bigIdx < 0 {
+			bigIdx = i
+		}
+	}
+	if bigIdx >= 0 {
+		for _, si := range small {
+			for _, m := range []int{0, 2} {
+				w.res.States++
+				if !w.Mine() || w.Expired() {
+					continue
+				}
+				h := []serOp{{Kind: 1, A: m}, {Kind: 0, A: bigIdx}, {Kind: 2, A: -1, Dst: 0}, {Kind: 0, A: small[0]}, {Kind: 2, A: -1, Dst: 1}, {Kind: 0, A: si}, {Kind: 2, A: -1, Dst: 1}}
+				w.res.Transitions += int64(len(h))
+				w.res.Evaluations++
+				w.res.Validated++
+				if what, fp := runSerHistory(ts, nil, h, nil); what != "" {
+					enc, _ := json.Marshal(h)
+					w.Violate(Violation{Harness: "C15-serializer-reuse", Fingerprint: "C15/serializer-reuse/" + fp, What: what, Case: enc, CaseText: "big stream, then small ones on one Serializer", Config: modeNames[m]})
+				}
+			}
+		}
+	}
 }
